@@ -42,7 +42,9 @@ def gen_scenario(rng, index):
     shared_name = rng.choice(["exp_a", "exp_b"])
     for _ in range(n_base):
         opts = {"splitters": (1, 3), "p_comment": rng.choice([0.0, 0.05, 0.15]), "p_kwprefix": 0.0, "p_shared_field": 0.0,
-                "depths": [0, 1, 1, 2, 2, 3], "max_returns": 12}
+                "depths": [0, 1, 1, 2, 2, 3], "max_returns": 12,
+                # schedules per second matter more here than program shapes: keep the texts small
+                "group_choices": [1, 1, 2, 2, 2, 3, 3, 4, 5, 6, 8], "elif_choices": [0, 0, 1, 1, 2, 3, 4]}
         if family == "race":
             opts.update(depths=[0, 0, 1], compact=rng.random() < 0.7, splitters=(1, 2))
         if rng.random() < 0.6:
